@@ -131,6 +131,11 @@ class PairStream:
             self.pos += 1
         return self.cur[0]
 
+    def cycles(self):
+        """number of complete passes through the list of all pairs: each pass is a block of draws that
+        offers every pair (the `Covers` blocks of `geoRun_fair_terminates` / `crossRun_fair_terminates`)"""
+        return self.pos // len(self.all) if self.all else 0
+
     def second(self):
         self.pairs.append(self.cur)
         return self.cur[1]
@@ -414,10 +419,18 @@ def run(ctx):
                 geo_kernel(mode)(*args)
             except Stop:
                 completed = False
+            except Exception as e:  # noqa
+                completed = False
+                ctx.fail({"kind": "geo", "level": "kernel", "mode": mode, "invariant": "raises",
+                          "error": type(e).__name__},
+                         f"_randomly_rewire_geomodel_{mode} raised {e!r}",
+                         {"call": f"_randomly_rewire_geomodel_{mode}", "iterations": iterations, "E": E,
+                          "edges": np.asarray(edges).tolist(), "rd_random_values": [k / 2.0 ** 20 for k in state["k"]]})
         idx = state["idx"]
         if len(idx) % 2:
             idx = idx[:-1]      # second index of the pair was never drawn
         last_offered["all"] = set(zip(idx[::2], idx[1::2])) >= set(state["ps"].all)
+        last_offered["cycles"] = state["ps"].cycles()
         return completed, list(zip(idx[::2], idx[1::2]))
 
     def geo_req(tag, mode, n, A0, D, eps, deg, edges0, iterations, draws):
@@ -444,6 +457,7 @@ def run(ctx):
             continue
         # (a) a sequence of single rewirings on the evolving state
         steps = rng.choice([1, 2, 4, 8])
+        admissible = False      # once a swap was made one exists for ever (geoRun_admissible_invariant)
         for _s in range(steps):
             A0, e0 = A.copy(), edges.copy()
             completed, draws = call_geo_kernel(mode, 1, A, D, eps, edges, deg, len(el) ** 2 + 5, sh)
@@ -464,6 +478,7 @@ def run(ctx):
                      {"op": f"_randomly_rewire_geomodel_{mode}", "n": n, "A": enc_mat(A0),
                       "D/4": enc_mat(D), "eps*4": eps, "draws": draws[:6]} if n <= 5 else None)
             ctx.count("geo:single-step:" + ("rewired" if completed else "budget-exhausted"))
+            admissible = admissible or completed
             if not completed:
                 break
         # (b) a whole run
@@ -481,8 +496,172 @@ def run(ctx):
         ctx.case(("geoN", mode, A0.tobytes().hex(), e0.tobytes().hex(), D.tobytes().hex(), eps, iters, draws),
                  not np.array_equal(A0, A))
         ctx.count("geo:run:" + ("completed" if completed else "budget-exhausted"))
+        # termination (oracle, independent of the model): a state that once admitted a swap admits one
+        # for ever, and `iters` complete passes through all pairs of edge indices make `iters` rewirings
+        if admissible:
+            if completed:
+                ctx.count("geo:termination:admissible-run-completed")
+            elif last_offered["cycles"] >= iters:
+                ctx.fail({"kind": "geo", "level": "kernel", "mode": mode, "invariant": "termination"},
+                         f"_randomly_rewire_geomodel_{mode}: a swap was admissible before, every pair of edge "
+                         f"indices was offered {last_offered['cycles']} times, but fewer than {iters} rewirings "
+                         "were made", rp)
+            else:
+                ctx.count("geo:termination:stream-too-short (not judged)")
     ctx.correspond("Lean geoRun == compiled _randomly_rewire_geomodel_I/II/III "
                    "(adjacency, edge array, loop counter; recorded draws)", reqs, impl)
+
+    # ------------------------------------------------------------------
+    # 1b. round 4: ARBITRARY binary32 data (no dyadic restriction).  Distances and tolerance are sent
+    #     to the model as integers in units of a common power of two (every finite binary32 number is
+    #     an integer multiple of 2^-149); the model rounds every subtraction with `rnd32`
+    #     (`geoRunFl`); the oracle judges the real result with exact Fractions of the binary32 values
+    #     (theorem `float_conditions_sound`: whatever the compiled test accepts is exactly within eps).
+    # ------------------------------------------------------------------
+    def units(vals):
+        """common power-of-two denominator of exact float values, and the values as integers in that unit"""
+        fr = [Fraction(float(v)) for v in vals]
+        den = max(f.denominator for f in fr)
+        return den, [int(f * den) for f in fr]
+
+    def f32_value(kind):
+        if kind == "uniform":
+            return np.float32(rng.uniform(0, 10))
+        if kind == "mixed-exponents":
+            return np.float32((1 + rng.randrange(2 ** 23) / 2.0 ** 23) * 2.0 ** rng.randrange(-3, 27))
+        if kind == "near-2^24":
+            return np.float32(rng.choice([16777216.0, 16777218.0, 33554432.0, 1.0, 3.0, 0.5]) + rng.randrange(0, 8))
+        return np.float32(rng.choice([2.0 ** -140 * rng.randrange(1, 1000), 2.0 ** 100 * (1 + rng.random()),
+                                      rng.uniform(0, 4)]))
+
+    def f32_matrix(n):
+        kind = rng.choice(["uniform", "mixed-exponents", "mixed-exponents", "near-2^24", "tiny+huge"])
+        D = np.zeros((n, n), dtype=np.float32)
+        for i in range(n):
+            for j in range(i):
+                D[i, j] = D[j, i] = f32_value(kind)
+        if rng.random() < 0.15:
+            for i in range(n):
+                for j in range(n):
+                    if i != j:
+                        D[i, j] = f32_value(kind)          # not symmetric (correspondence only)
+        # tolerance: on / next to the boundary of `<` for some difference as binary32 computes it
+        cells = [(i, j) for i in range(n) for j in range(n) if i != j]
+        (a, b), (c_, d) = rng.choice(cells), rng.choice(cells)
+        z = np.abs(np.float32(D[a, b] - D[c_, d]))
+        ek = rng.choice(["boundary", "next-up", "next-down", "value", "huge"])
+        if ek == "huge" or not np.isfinite(z) or z == 0:
+            eps = np.float32(2.0 ** 120) if ek == "huge" else f32_value(kind)
+        elif ek == "boundary":
+            eps = z
+        elif ek == "next-up":
+            eps = np.nextafter(z, np.float32(np.inf))
+        elif ek == "next-down":
+            eps = np.nextafter(z, np.float32(0))
+        else:
+            eps = f32_value(kind)
+        if not (eps > 0 and np.isfinite(eps)):
+            eps = np.float32(1.0)
+        inexact = any(Fraction(float(np.float32(D[i, j] - D[k_, l_]))) != Fraction(float(D[i, j])) - Fraction(float(D[k_, l_]))
+                      for (i, j) in cells[:12] for (k_, l_) in cells[:12])
+        ctx.count(f"geo:f32:D={kind}:eps={ek}")
+        ctx.count("geo:f32:" + ("some differences are rounded" if inexact else "all sampled differences exact"))
+        den, ints = units(list(D.flatten()) + [eps])
+        Dint = np.array(ints[:-1], dtype=object).reshape(n, n)
+        return D, np.float32(eps), Dint, ints[-1], den
+
+    def call_geo_kernel_f32(mode, iterations, A, Df, epsf, edges, deg, budget):
+        E = len(edges)
+        sup, state = uniform_pairs(E, budget)
+        args = [iterations, float(epsf), A, Df, E, edges]
+        if mode == "III":
+            args.append(deg)
+        completed = True
+        with Patched(K, sup):
+            try:
+                geo_kernel(mode)(*args)
+            except Stop:
+                completed = False
+            except Exception as e:  # noqa
+                completed = False
+                ctx.fail({"kind": "geo", "level": "kernel-f32", "mode": mode, "invariant": "raises",
+                          "error": type(e).__name__},
+                         f"_randomly_rewire_geomodel_{mode} raised {e!r}",
+                         {"call": f"_randomly_rewire_geomodel_{mode}", "iterations": iterations, "E": E,
+                          "edges": np.asarray(edges).tolist(), "rd_random_values": [k / 2.0 ** 20 for k in state["k"]]})
+        idx = state["idx"]
+        if len(idx) % 2:
+            idx = idx[:-1]
+        return completed, list(zip(idx[::2], idx[1::2]))
+
+    reqs, impl = [], []
+    for _ in range(250 if quick else 2500):
+        n = rng.choice([4, 4, 5, 5, 6, 7, 8])
+        gk, A = structured_graph(rng, n)
+        if A.sum() == 0:
+            continue
+        mode = rng.choice(["I", "II", "III"])
+        Df, epsf, Dint, epsint, den = f32_matrix(n)
+        A = A.astype(ADJ)
+        el = edge_list(A)
+        rng.shuffle(el)
+        el = [e if rng.random() < 0.5 else (e[1], e[0]) for e in el]
+        edges = np.array(el, dtype=NODE).reshape(len(el), 2)
+        deg = A.sum(axis=1).astype(DEGREE)
+        for iters in ([1, 1, 1] if rng.random() < 0.6 else [rng.choice([2, 5, 12])]):
+            A0, e0 = A.copy(), edges.copy()
+            completed, draws = call_geo_kernel_f32(mode, iters, A, Df, epsf, edges, deg,
+                                                   min(1500, 5 + iters * (len(el) ** 2 + 5)))
+            reqs.append(f"geoF {MODES[mode]} {n} {enc_mat(A0)} {enc_mat(Dint)} {epsint} {enc_vec(deg)} "
+                        f"{enc_mat(e0)} {iters} {enc_mat(draws)}")
+            impl.append(f"{enc_mat(A)}|{enc_mat(edges)}|{iters if completed else '<'}")
+            rp = {"call": f"_randomly_rewire_geomodel_{mode}", "iterations": iters, "eps_float32": float(epsf),
+                  "A": A0.tolist(), "D_float32": Df.astype(np.float64).tolist(), "edges": e0.tolist(),
+                  "degree": deg.tolist(), "edge_index_draws": draws, "A_after": A.tolist()}
+            # the oracle's `/4` scaling of distances and tolerance cancels
+            geo_oracle(ctx, mode, A0, A, edges, Dint, epsint, "kernel-f32", rp, iters == 1)
+            ctx.case(("geoF", mode, A0.tobytes().hex(), e0.tobytes().hex(), Df.tobytes().hex(), float(epsf), iters,
+                      tuple(draws)), not np.array_equal(A0, A))
+            ctx.count("geo:f32:kernel:" + ("completed" if completed else "budget-exhausted"))
+            if not completed:
+                break
+    # the two roundings themselves, against the hardware: binary32 subtraction, binary64 `u * E`
+    xs, got = [], []
+    for _ in range(300 if quick else 3000):
+        kind = rng.choice(["uniform", "mixed-exponents", "near-2^24", "tiny+huge"])
+        x, y = f32_value(kind), f32_value(kind)
+        if rng.random() < 0.3:
+            y = -y
+        with np.errstate(all="ignore"):
+            z = np.float32(x - y)
+        if not np.isfinite(z):
+            continue
+        exact = Fraction(float(x)) - Fraction(float(y))
+        xs.append(int(exact * 2 ** 149))
+        got.append(int(Fraction(float(z)) * 2 ** 149))
+        ctx.count("rnd32:" + ("rounded" if Fraction(float(z)) != exact else "exact"))
+    reqs.append("rnd32 " + ",".join(map(str, xs)))
+    impl.append(",".join(map(str, got)))
+    for _ in range(40 if quick else 400):
+        E = rng.choice([1, 2, 3, 7, 2 ** 31 - 1, 2 ** 30 + 1, 2 ** 24 + 1, rng.randrange(1, 2 ** 31), rng.randrange(1, 300)])
+        ks = []
+        for _k in range(12):
+            idx = rng.randrange(E)
+            lo = -((-idx * 2 ** 53) // E)
+            hi = -((-(idx + 1) * 2 ** 53) // E) - 1
+            ks.append(rng.choice([lo, hi, max(lo - 1, 0), 2 ** 53 - 1, 0, rng.randrange(2 ** 53)]))
+        outs = [int(np.floor((k / 2.0 ** 53) * E)) for k in ks]
+        if any(not 0 <= o < E for o in outs):
+            ctx.fail({"kind": "geo", "level": "draw", "invariant": "index-range"},
+                     f"np.floor(u * {E}) left [0, E) for a double u in [0, 1)", {"E": E, "k_over_2^53": ks})
+        reqs.append(f"drawD {','.join(map(str, ks))} {E}")
+        impl.append(",".join(map(str, outs)))
+        ctx.count("drawD:" + ("E>=2^24" if E >= 2 ** 24 else "small-E"))
+        if any(o != (k * E) // 2 ** 53 for o, k in zip(outs, ks)):
+            ctx.count("drawD:rounding changed the index (floor(fl(u*E)) != floor(u*E))")
+    ctx.correspond("Lean geoRunFl rnd32 == compiled _randomly_rewire_geomodel_I/II/III on arbitrary binary32 "
+                   "distances / tolerances (integers in units of a power of two); rnd32 == binary32 subtraction; "
+                   "geoDrawR rnd64 == numpy's floor(u * E) for 53-bit u", reqs, impl)
 
     # ------------------------------------------------------------------
     # 2. geographical rewiring through the public methods: histories on one object
@@ -661,9 +840,115 @@ def run(ctx):
             ctx.count("geo:method:completed")
             ctx.count(f"geo:method:history-position={min(step, 3)}")
             hist.append(f"randomly_rewire_geomodel_{mode}(iterations={iters})")
+    # ---- 2b. round 4, method level: (f32) the caller's distance matrix and `inaccuracy` are arbitrary
+    #      doubles; the method converts them to binary32 (`to_cy(.., FIELD)`, C `float eps`) and the model
+    #      gets exactly these binary32 values as integers (`geoMethodFl rnd32`); (b64) the RNG returns
+    #      53-bit doubles k / 2^53 as numpy does and the model evaluates `floor(fl64(u * E))` itself
+    def uniform_pairs53(E, budget):
+        ps = PairStream(rng, E, E, budget)
+        state = {"n": 0, "idx": [], "k": [], "ps": ps}
+
+        def sup(kind, arg):
+            assert kind == "random" and arg is None, (kind, arg)
+            idx = ps.first() if state["n"] % 2 == 0 else ps.second()
+            state["n"] += 1
+            lo = -((-idx * 2 ** 53) // E)
+            hi = -((-(idx + 1) * 2 ** 53) // E) - 1
+            k = rng.choice([lo, hi, (lo + hi) // 2, rng.randrange(lo, hi + 1)])
+            u = k / 2.0 ** 53
+            real = int(np.floor(u * E))        # may be idx + 1 when the product rounds up to an integer
+            if real != idx:
+                ctx.count("geo:method:b64:rounded product reached the next index")
+            state["idx"].append(real)
+            state["k"].append(k)
+            return u
+        return sup, state
+
+    for _ in range(200 if quick else 2000):
+        n = rng.choice([4, 5, 5, 6, 7, 9])
+        gk, A = structured_graph(rng, n)
+        if A.sum() == 0:
+            continue
+        mode = rng.choice(["I", "II", "III"])
+        flavour = rng.choice(["f32", "f32", "b64"])
+        net = make_spatial(n, A)
+        for step in range(rng.choice([1, 2])):
+            A0 = net.adjacency.copy()
+            e0 = np.array(net.graph.get_edgelist()).reshape(-1, 2)
+            E0 = int(net.n_links)
+            iters = rng.choice([1, 1, 2, 5])
+            budget = min(1500, 5 + iters * (len(e0) ** 2 + 5))
+            if flavour == "f32":
+                D64 = np.zeros((n, n))
+                kind = rng.choice(["uniform", "mixed-exponents", "near-2^24"])
+                for i in range(n):
+                    for j in range(i):
+                        # doubles that are NOT binary32 numbers: the method's conversion rounds them
+                        D64[i, j] = D64[j, i] = float(f32_value(kind)) * (1 + rng.randrange(1, 2 ** 20) * 2.0 ** -45)
+                inacc = float(rng.choice([0.1, 0.3, rng.uniform(0, 5), 7.3, 1e4, 5e7, 1e30, 1e30,
+                                          abs(float(np.float32(D64[0, 1])) - float(np.float32(D64[1, 2 % n])))]) or 0.5)
+                D32 = D64.astype(np.float32)
+                eps32 = np.float32(inacc)
+                if not eps32 > 0:
+                    continue
+                den, ints = units(list(D32.flatten()) + [eps32])
+                Dint, epsint = np.array(ints[:-1], dtype=object).reshape(n, n), ints[-1]
+                sup, state = uniform_pairs(len(e0), budget)
+                call_D, call_eps = D64, inacc
+            else:
+                _dk, Dq = dist_matrix(rng, n)
+                Dq = np.maximum(Dq, Dq.T)
+                epsq = rng.choice([2, 3, 5, 400, 400, 2 ** 40])
+                Dint, epsint = Dq, epsq
+                sup, state = uniform_pairs53(len(e0), budget)
+                call_D, call_eps = Dq / 4.0, epsq / 4.0
+            completed, err = True, None
+            Dm_before = np.array(call_D, copy=True)
+            with Patched(K, sup):
+                try:
+                    getattr(net, "randomly_rewire_geomodel_" + mode)(
+                        distance_matrix=call_D, iterations=iters, inaccuracy=call_eps)
+                except Stop:
+                    completed = False
+                except Exception as e:  # noqa
+                    err = e
+            rp = {"call": f"{type(net).__name__}.randomly_rewire_geomodel_{mode}", "iterations": iters,
+                  "flavour": flavour, "inaccuracy": float(call_eps), "A": A0.tolist(),
+                  "distance_matrix": np.asarray(call_D, dtype=np.float64).tolist()}
+            if err is not None:
+                ctx.fail({"kind": "geo", "level": "method", "mode": mode, "invariant": "raises",
+                          "error": type(err).__name__},
+                         f"randomly_rewire_geomodel_{mode} raised {err!r}", rp)
+                break
+            if not completed:
+                ctx.count(f"geo:method:{flavour}:budget-exhausted")
+                break
+            idx = state["idx"]
+            draws = list(zip(idx[::2], idx[1::2]))
+            A1 = net.adjacency
+            rp.update(edge_index_draws=draws, A_after=A1.tolist())
+            if flavour == "f32":
+                reqs.append(f"geoFM {MODES[mode]} {n} {enc_mat(A0)} {enc_mat(Dint)} {epsint} {iters} {enc_mat(draws)}")
+            else:
+                ks = list(zip(state["k"][::2], state["k"][1::2]))
+                rp["rd_random_values_times_2_pow_53"] = ks
+                reqs.append(f"geoMD {MODES[mode]} {n} {enc_mat(A0)} {enc_mat(Dint)} {epsint} {iters} {enc_mat(ks)}")
+            impl.append(f"{enc_mat(A1)}|{enc_mat(e0)}|{E0}|{iters}")
+            geo_oracle(ctx, mode, A0, A1, None, Dint, epsint, "method-" + flavour, rp, iters == 1)
+            if not object_coherent(net, A1):
+                ctx.fail({"kind": "geo", "level": "method", "mode": mode, "invariant": "object-state"},
+                         "N / n_links / graph / degree() / sp_A disagree with the rewired adjacency", rp)
+            if not np.array_equal(np.asarray(call_D), Dm_before):
+                ctx.fail({"kind": "geo", "level": "method", "mode": mode, "invariant": "caller-array"},
+                         "the caller's distance matrix was modified", rp)
+            ctx.case(("geoM4", flavour, mode, A0.tobytes().hex(), str(rp["distance_matrix"]), float(call_eps), iters,
+                      tuple(draws)), not np.array_equal(A0, A1))
+            ctx.count(f"geo:method:{flavour}:completed")
     ctx.correspond("Lean geoMethod / distKernel == SpatialNetwork / GeoNetwork.randomly_rewire_geomodel_I/II/III, "
                    "set_random_links_by_distance (adjacency after; edge list, E and degree array derived by "
-                   "the model; histories on one object)", reqs, impl)
+                   "the model; histories on one object); geoMethodFl rnd32 on arbitrary double distance matrices / "
+                   "tolerances as converted to binary32 by the method; draws from 53-bit RNG values through "
+                   "geoDrawR rnd64", reqs, impl)
 
     # ------------------------------------------------------------------
     # 3. cross links
@@ -684,7 +969,7 @@ def run(ctx):
     def int_supplier(b1, b2, budget):
         """supplier for randint(b1), randint(b2) / int(random()*b1), int(random()*b2)"""
         ps = PairStream(rng, b1, b2, budget)
-        state = {"n": 0, "vals": []}
+        state = {"n": 0, "vals": [], "ps": ps}
 
         def sup(kind, arg):
             first = state["n"] % 2 == 0
@@ -773,6 +1058,7 @@ def run(ctx):
                 completed = False
         v = state["vals"]
         draws = list(zip(v[::2], v[1::2]))
+        main_completed, main_cycles = completed, state["ps"].cycles()
         reqs.append(f"crossrewire {int(completed)} {n} {enc_mat(A0)} {m1} {m2} {enc_mat(C0)} "
                     f"{enc_mat(links)} {enc_vec(n1)} {enc_vec(n2)} {swaps} {enc_mat(draws)}")
         impl.append(f"{enc_mat(A1)}|{enc_mat(C1)}|{enc_mat(links1)}|{swaps if completed else '<'}")
@@ -803,6 +1089,17 @@ def run(ctx):
                 adm_reqs.append(f"crossadm {enc_mat(C0)} {enc_mat(links)}")
                 adm_impl.append("1" if done1 else "0")
                 ctx.count("cross:admissible-swap:" + ("exists" if done1 else "none (all pairs rejected)"))
+            # termination (oracle): admissible at the start => admissible for ever; `swaps` complete passes
+            # through all pairs of link indices make `swaps` swaps
+            if done1 and swaps > 0:
+                if main_completed:
+                    ctx.count("cross:termination:admissible-run-completed")
+                elif main_cycles >= swaps:
+                    ctx.fail({"kind": "cross", "op": "rewire", "level": "kernel", "invariant": "termination"},
+                             f"_randomlyRewireCrossLinks: a swap is admissible, every pair of link indices was "
+                             f"offered {main_cycles} times, but fewer than {swaps} swaps were made", rp)
+                else:
+                    ctx.count("cross:termination:stream-too-short (not judged)")
         ctx.count("cross:rewire:kernel:" + ("completed" if completed else "budget-exhausted"))
 
         # ---- public methods: histories (the result of one call is the input of the next); the model
